@@ -33,10 +33,12 @@ func (fr *Frame) special(st *State, v ssa.Value, key string, callee *ssa.Functio
 		fr.blocking(st, "wg-wait", pos)
 		return true
 	case "time.Now":
-		t := c.freshConst("now", c.sortOf(callee.Signature.Results().At(0).Type()))
+		srt := c.sortOf(callee.Signature.Results().At(0).Type())
+		t := c.freshConst("now", srt)
 		if v != nil {
 			fr.env[v] = t
 		}
+		st.Comp["g:lastnow|"+srt] = t
 		return true
 	}
 	return false
@@ -104,6 +106,12 @@ func VerifyFunc(w *World, key string, opts VerifyOpts) (res *FuncResult) {
 		fr.fv = append(fr.fv, n)
 		x.assumeAllocatedDeep(st0, f.Type(), n)
 		c.assume(not(eq(n, "nil")))
+	}
+	if fn.Synthetic == "package initializer" && fn.Pkg != nil {
+		// the package initializer runs once: its guard is false on entry
+		if g, ok := fn.Pkg.Members["init$guard"].(*ssa.Global); ok {
+			c.assume(not(x.load(st0, types.Typ[types.Bool], fr.val(g))))
+		}
 	}
 	// requires
 	fr.entry = st0.clone()
